@@ -10,7 +10,7 @@ RULE = ('one generated chart + start state + event script is run under every con
         'inits in order), the rest state after every step and any exception are compared with the plain un-spied run. '
         'distinct_nontrivial = distinct (configuration, number of transitions in the script, max depth) tuples')
 CASES = {'quick': 400, 'thorough': 30000}
-BUDGET = {'quick': 60, 'thorough': 900}
+BUDGET = {'quick': 60, 'thorough': 300}
 REQUIRE = {'configs_compared': 2000, 'ao_configs_compared': 200, 'transitions': 500}
 ASSUME = ['decoration is all-or-none per chart', 'the plain un-spied run is the reference (tied to the model by C01-C03)']
 CONFIGS = hosts.all_configs()
